@@ -1,5 +1,5 @@
 #!/usr/bin/env python3
-"""Hand-built FlowSpec members appended to corpus/c15/nlri.txt after the harvest (tools/harvest_c15.py does not know
+"""Hand-built members appended to corpus/c15/nlri.txt after the harvest (tools/harvest_c15.py does not know
 them): NLRI lengths 239, 240, 241 (the one/two octet length boundary of RFC 8955 4.1), plain and flow-vpn.
 Added after a seeded change (`lc <= 240` using the one-octet form) went unnoticed by the harvested corpus."""
 def flow(k, j, rd=None):
@@ -10,7 +10,30 @@ def flow(k, j, rd=None):
     n = len(body)
     pre = bytes([n]) if n < 240 else bytes([0xF0 | (n >> 8), n & 0xFF])
     return n, (pre + body).hex()
+def mup_partial_octet():
+    """MUP ISD (type 1) and T1ST (type 3) routes whose prefix length is not a multiple of 8, in pairs that differ only
+    in the bits of the last, partial octet.  Added after a seeded change (prefix read back with length // 8 octets) went
+    unnoticed: every harvested and hand-built MUP prefix was /0, /24, /32, /48 or /128."""
+    import ipaddress, struct
+    rd = bytes([0, 0, 0xfd, 0xe8, 0, 0, 0, 1])
+    out = []
+    def pb(net):
+        n = ipaddress.ip_network(net)
+        return bytes([n.prefixlen]) + n.network_address.packed[:(n.prefixlen + 7) // 8]
+    def add(afi, t, body, what):
+        out.append(f'{afi}\t85\tA\t{(struct.pack("!BHB", 1, t, len(body)) + body).hex()}\thand:mup type{t} {what}')
+    for afi, nets, ep in ((1, ('10.1.16.0/20', '10.1.32.0/20', '10.1.2.128/25', '10.1.2.0/25', '10.128.0.0/9', '10.0.0.0/9', '10.1.2.4/31'), '10.0.0.1'),
+                          (2, ('2001:db8:0:8::/61', '2001:db8:0:10::/61', '2001:db8:8000::/33', '2001:db8::/33', '2001:db8::1:0/113'), '2001:db8::1')):
+        e = ipaddress.ip_address(ep).packed
+        for net in nets:
+            add(afi, 1, rd + pb(net), f'isd {net}')
+            add(afi, 3, rd + pb(net) + struct.pack('!LB', 12345, 9) + bytes([len(e) * 8]) + e, f't1st {net}')
+    return out
+
+
 if __name__ == '__main__':
+    for line in mup_partial_octet():
+        print(line)
     rd = bytes([0, 0, 0xfd, 0xe8, 0, 0, 0, 1])
     for k, j in ((77, 1), (78, 0), (77, 2)):
         n, h = flow(k, j)
